@@ -140,8 +140,8 @@ def compile_property(layer, prop):
 
 
 # ---------------------------------------------------------------------------------- harness
-def build_harness(pkg, timeout=1800):
-    hd = os.path.join(ROOT, "harness")
+def build_harness(pkg, timeout=1800, ws="harness"):
+    hd = os.path.join(ROOT, ws)
     lock = os.path.join(hd, "Cargo.lock")
     if not os.path.exists(lock):
         shutil.copy(os.path.join(REPO, "Cargo.lock"), lock)
@@ -155,7 +155,7 @@ def run_shards(layer, case_dir, pattern="cases_*.v", jobs=16, timeout=900):
     flags = q_flags(layer)
 
     def one(f):
-        rc, out, dt = sh(["timeout", str(timeout), "coqc", "-noglob"] + flags + [f], cwd=case_dir, timeout=timeout + 30)
+        rc, out, dt = sh(["timeout", str(timeout), "coqc", "-noglob"] + flags + ["-Q", case_dir, "Cases", f], cwd=case_dir, timeout=timeout + 30)
         return f, rc, out, dt
     with ThreadPoolExecutor(max_workers=jobs) as ex:
         res = list(ex.map(one, shards))
